@@ -7,26 +7,67 @@ open QKV.QNoise
 
 /-! ## get_quantizers -/
 
-theorem foldl_append_flatMap {α β : Type} (f : α → List β) (ls : List α) (init : List β) :
-    ls.foldl (fun acc l => acc ++ f l) init = init ++ ls.flatMap f := by
-  induction ls generalizing init with
-  | nil => simp
-  | cons a t ih => simp [List.foldl_cons, ih, List.append_assoc]
+mutual
+theorem addLayer_eq (acc : List QObj) : (l : Layer) → addLayer acc l = l.pre.foldl addQ acc
+  | .mk a sub => by
+    simp only [addLayer, Layer.pre, List.foldl_append]
+    exact addLayers_eq _ sub
+theorem addLayers_eq (acc : List QObj) :
+    (ls : List Layer) → addLayers acc ls = (preList ls).foldl addQ acc
+  | [] => by simp [addLayers, preList]
+  | l :: ls => by
+    simp only [addLayers, preList, List.foldl_append]
+    rw [addLayer_eq acc l]
+    exact addLayers_eq _ ls
+end
 
-theorem getQuantizers_eq_flatMap (layers : List Layer) :
-    getQuantizers layers = layers.flatMap layerQuantizers := by
-  unfold getQuantizers
-  rw [foldl_append_flatMap]; simp
+/-- the walk = "append if knob-bearing and not yet listed" folded over the pre-order of the model -/
+theorem getQuantizers_eq (layers : List Layer) :
+    getQuantizers layers = (preList layers).foldl addQ [] := addLayers_eq [] layers
 
-theorem layerQuantizers_eq_filter (l : Layer) :
-    layerQuantizers l = l.held.filter QObj.hasKnob := by
-  unfold layerQuantizers Layer.held
-  rw [List.filter_append]
-  congr 1
-  · cases l.quantizers <;> simp
-  · cases h : l.quantizer with
-    | none => simp
-    | some q => by_cases hk : q.hasKnob <;> simp [hk]
+theorem preList_eq_flatMap (ls : List Layer) : preList ls = ls.flatMap Layer.pre := by
+  induction ls with
+  | nil => simp [preList]
+  | cons l t ih => simp [preList, ih]
+
+theorem holds_mem_pre {l : Layer} {q : QObj} (h : l.Holds q) : q ∈ l.pre := by
+  induction h with
+  | @own l q h =>
+    cases l with
+    | mk a sub => simp only [Layer.pre, List.mem_append]; exact Or.inl h
+  | @sub l l' q hl _ ih =>
+    cases l with
+    | mk a sub =>
+      simp only [Layer.pre, List.mem_append]
+      right
+      rw [preList_eq_flatMap, List.mem_flatMap]
+      exact ⟨l', hl, ih⟩
+
+mutual
+theorem holds_of_mem_pre : (l : Layer) → ∀ q, q ∈ l.pre → l.Holds q
+  | .mk a sub, q, h => by
+    simp only [Layer.pre, List.mem_append] at h
+    rcases h with h | h
+    · exact .own h
+    · obtain ⟨l', hl', hq⟩ := holds_of_mem_preList sub q h
+      exact .sub hl' hq
+theorem holds_of_mem_preList : (ls : List Layer) → ∀ q, q ∈ preList ls → ∃ l ∈ ls, l.Holds q
+  | [], q, h => by simp [preList] at h
+  | l :: ls, q, h => by
+    simp only [preList, List.mem_append] at h
+    rcases h with h | h
+    · exact ⟨l, by simp, holds_of_mem_pre l q h⟩
+    · obtain ⟨l', hl', hq⟩ := holds_of_mem_preList ls q h
+      exact ⟨l', by simp [hl'], hq⟩
+end
+
+/-- the pre-order list is exactly the set of quantizer objects the model holds -/
+theorem mem_preList_iff (layers : List Layer) (q : QObj) : q ∈ preList layers ↔ ModelHolds layers q := by
+  constructor
+  · exact holds_of_mem_preList layers q
+  · rintro ⟨l, hl, hq⟩
+    rw [preList_eq_flatMap, List.mem_flatMap]
+    exact ⟨l, hl, holds_mem_pre hq⟩
 
 theorem filter_flatMap' {α β : Type} (p : β → Bool) (f : α → List β) (ls : List α) :
     (ls.flatMap f).filter p = ls.flatMap (fun a => (f a).filter p) := by
@@ -34,12 +75,111 @@ theorem filter_flatMap' {α β : Type} (p : β → Bool) (f : α → List β) (l
   | nil => simp
   | cons a t ih => simp [List.flatMap_cons, List.filter_append, ih]
 
-theorem getQuantizers_eq_filter (layers : List Layer) :
-    getQuantizers layers = (layers.flatMap Layer.held).filter QObj.hasKnob := by
-  rw [getQuantizers_eq_flatMap, filter_flatMap']
-  congr 1
-  funext l
-  exact layerQuantizers_eq_filter l
+theorem addQ_cases (acc : List QObj) (q : QObj) :
+    (addQ acc q = acc ++ [q] ∧ q.hasKnob = true ∧ ∀ p ∈ acc, p.tag ≠ q.tag) ∨
+    (addQ acc q = acc ∧ (q.hasKnob = false ∨ ∃ p ∈ acc, p.tag = q.tag)) := by
+  unfold addQ
+  by_cases hk : q.hasKnob = true
+  · by_cases ha : (acc.any fun p => p.tag == q.tag) = true
+    · right
+      refine ⟨by simp [ha], Or.inr ?_⟩
+      simpa using ha
+    · left
+      refine ⟨by simp [hk, ha], hk, ?_⟩
+      intro p hp hpt
+      apply ha
+      simp only [List.any_eq_true, beq_iff_eq]
+      exact ⟨p, hp, hpt⟩
+  · right
+    have hk' : q.hasKnob = false := by simpa using hk
+    exact ⟨by simp [hk'], Or.inl hk'⟩
+
+/-- shape of the fold: the accumulator grows by a sublist of the input, knob-bearing objects only -/
+theorem foldl_addQ_shape (l : List QObj) : ∀ acc : List QObj,
+    ∃ r, l.foldl addQ acc = acc ++ r ∧ r.Sublist l ∧ ∀ q ∈ r, q.hasKnob = true := by
+  induction l with
+  | nil => intro acc; exact ⟨[], by simp, List.Sublist.refl _, by simp⟩
+  | cons q t ih =>
+    intro acc
+    rcases addQ_cases acc q with ⟨e, hk, _⟩ | ⟨e, _⟩
+    · obtain ⟨r, hr, hs, hkr⟩ := ih (acc ++ [q])
+      refine ⟨q :: r, by simp [List.foldl_cons, e, hr], hs.cons_cons q, ?_⟩
+      intro x hx
+      simp only [List.mem_cons] at hx
+      rcases hx with rfl | hx
+      · exact hk
+      · exact hkr x hx
+    · obtain ⟨r, hr, hs, hkr⟩ := ih acc
+      exact ⟨r, by simp [List.foldl_cons, e, hr], hs.cons q, hkr⟩
+
+theorem foldl_addQ_cover (l : List QObj) : ∀ acc : List QObj, ∀ q ∈ l, q.hasKnob = true →
+    ∃ q' ∈ l.foldl addQ acc, q'.tag = q.tag := by
+  induction l with
+  | nil => intro acc q hq; simp at hq
+  | cons a t ih =>
+    intro acc q hq hk
+    simp only [List.mem_cons] at hq
+    simp only [List.foldl_cons]
+    rcases hq with rfl | hq
+    · obtain ⟨r, hr, _, _⟩ := foldl_addQ_shape t (addQ acc q)
+      rcases addQ_cases acc q with ⟨e, _, _⟩ | ⟨e, hno | ⟨p, hp, hpt⟩⟩
+      · exact ⟨q, by rw [hr, e]; simp, rfl⟩
+      · rw [hk] at hno; cases hno
+      · exact ⟨p, by rw [hr, e]; simp [hp], hpt⟩
+    · exact ih _ q hq hk
+
+theorem foldl_addQ_nodup (l : List QObj) : ∀ acc : List QObj, (acc.map QObj.tag).Nodup →
+    ((l.foldl addQ acc).map QObj.tag).Nodup := by
+  induction l with
+  | nil => intro acc h; exact h
+  | cons q t ih =>
+    intro acc h
+    simp only [List.foldl_cons]
+    apply ih
+    rcases addQ_cases acc q with ⟨e, _, hne⟩ | ⟨e, _⟩
+    · rw [e, List.map_append, List.nodup_append]
+      refine ⟨h, by simp, ?_⟩
+      intro a ha b hb
+      simp only [List.map_cons, List.map_nil, List.mem_singleton] at hb
+      simp only [List.mem_map] at ha
+      obtain ⟨p, hp, rfl⟩ := ha
+      rw [hb]
+      exact hne p hp
+    · rw [e]; exact h
+
+/-- without aliasing the fold is the plain filter -/
+theorem foldl_addQ_noalias (l : List QObj) : ∀ acc : List QObj,
+    (∀ p ∈ acc, ∀ q ∈ l, p.tag ≠ q.tag) → (l.map QObj.tag).Nodup →
+    l.foldl addQ acc = acc ++ l.filter QObj.hasKnob := by
+  induction l with
+  | nil => intro acc _ _; simp
+  | cons q t ih =>
+    intro acc hd hn
+    simp only [List.map_cons, List.nodup_cons] at hn
+    have hqt : ∀ x ∈ t, q.tag ≠ x.tag := by
+      intro x hx he
+      apply hn.1
+      rw [he]
+      exact List.mem_map_of_mem hx
+    simp only [List.foldl_cons]
+    rcases addQ_cases acc q with ⟨e, hk, _⟩ | ⟨e, hno | ⟨p, hp, hpt⟩⟩
+    · rw [e, ih (acc ++ [q]) ?_ hn.2]
+      · simp [hk]
+      · intro p hp x hx
+        simp only [List.mem_append, List.mem_singleton] at hp
+        rcases hp with hp | rfl
+        · exact hd p hp x (by simp [hx])
+        · exact hqt x hx
+    · rw [e, ih acc (fun p hp x hx => hd p hp x (by simp [hx])) hn.2]
+      simp [hno]
+    · exact absurd hpt (hd p hp q (by simp))
+
+theorem getQuantizers_knob (layers : List Layer) : ∀ q ∈ getQuantizers layers, q.hasKnob = true := by
+  intro q hq
+  rw [getQuantizers_eq] at hq
+  obtain ⟨r, hr, _, hk⟩ := foldl_addQ_shape (preList layers) []
+  rw [hr] at hq
+  exact hk q (by simpa using hq)
 
 /-! ## calculate_qnoise_factor -/
 
@@ -146,32 +286,67 @@ theorem setAll_nil_of_result_nil (c : Cfg) (rd : Rnd) (qs : List QObj) (h : (set
   have : qs.length = 0 := by simpa using hl.1.symm
   omega
 
-theorem setOne_std (c : Cfg) (rd : Rnd) (q : QObj) (hq : q.kind = .std) :
-    ∃ q', setOne c rd q = some q' ∧ q'.kind = .std ∧ q'.tag = q.tag ∧ q'.useSte = c.useSte ∧
-      q'.st.useVars = true ∧ q'.st.eff rd = rd.r32 0 := by
+theorem setOne_knob (c : Cfg) (rd : Rnd) (q : QObj) (hq : q.hasKnob = true) :
+    ∃ q', setOne c rd q = some q' ∧ q'.kind = q.kind ∧ q'.tag = q.tag ∧
+      (q.kind = .std → q'.useSte = c.useSte) ∧ q'.st.useVars = true ∧ q'.st.eff rd = rd.r32 0 := by
   unfold setOne
-  rw [hq]
-  refine ⟨_, rfl, rfl, rfl, rfl, ?_, by simp⟩
-  simp only [QState.update]
-  split <;> split <;> simp_all [QState.build]
+  cases hk : q.kind with
+  | noKnob => simp [QObj.hasKnob, hk] at hq
+  | std =>
+    refine ⟨_, rfl, rfl, rfl, fun _ => rfl, ?_, by simp⟩
+    simp only [QState.update]
+    split <;> split <;> simp_all [QState.build]
+  | linear =>
+    refine ⟨_, rfl, rfl, rfl, ?_, ?_, by simp⟩
+    · intro h; cases h
+    · simp only [QState.update]
+      split <;> split <;> simp_all [QState.build]
 
-theorem setAll_std (c : Cfg) (rd : Rnd) (qs : List QObj) (hs : ∀ q ∈ qs, q.kind = .std) :
+theorem setAll_knob (c : Cfg) (rd : Rnd) (qs : List QObj) (hs : ∀ q ∈ qs, q.hasKnob = true) :
     (setAll c rd qs).2.2 = false ∧ (setAll c rd qs).2.1 = qs.length ∧
-    ∀ q ∈ (setAll c rd qs).1, q.kind = .std ∧ q.useSte = c.useSte ∧ q.st.useVars = true ∧
-      q.st.eff rd = rd.r32 0 := by
+    (setAll c rd qs).1.map QObj.tag = qs.map QObj.tag ∧
+    ∀ q ∈ (setAll c rd qs).1, q.hasKnob = true ∧ q.st.useVars = true ∧ q.st.eff rd = rd.r32 0 := by
   induction qs with
   | nil => simp [setAll]
   | cons q t ih =>
-    obtain ⟨q', h1, h2, _, h3, h4, h5⟩ := setOne_std c rd q (hs q (by simp))
+    obtain ⟨q', h1, h2, h3, _, h4, h5⟩ := setOne_knob c rd q (hs q (by simp))
     have iht := ih (fun x hx => hs x (by simp [hx]))
     unfold setAll
     rw [h1]
-    refine ⟨iht.1, by simp [iht.2.1], ?_⟩
+    refine ⟨iht.1, by simp [iht.2.1], by simp [h3, iht.2.2.1], ?_⟩
     intro x hx
     simp only [List.mem_cons] at hx
     rcases hx with rfl | hx
-    · exact ⟨h2, h3, h4, h5⟩
-    · exact iht.2.2 x hx
+    · refine ⟨?_, h4, h5⟩
+      have := hs q (by simp)
+      simpa [QObj.hasKnob, h2] using this
+    · exact iht.2.2.2 x hx
+
+/-- `set_quantizers` on what `get_quantizers` returns never raises (every kind with the knob is
+    handled since the fix of C07-sched-quantized-linear) -/
+theorem setAll_getQuantizers (c : Cfg) (rd : Rnd) (layers : List Layer) :
+    (setAll c rd (getQuantizers layers)).2.2 = false ∧
+    (setAll c rd (getQuantizers layers)).2.1 = (getQuantizers layers).length ∧
+    (setAll c rd (getQuantizers layers)).1.map QObj.tag = (getQuantizers layers).map QObj.tag ∧
+    ∀ q ∈ (setAll c rd (getQuantizers layers)).1,
+      q.hasKnob = true ∧ q.st.useVars = true ∧ q.st.eff rd = rd.r32 0 :=
+  setAll_knob c rd _ (getQuantizers_knob layers)
+
+/-- the standard-kind quantizers also take over the callback's `use_ste` -/
+theorem setAll_useSte (c : Cfg) (rd : Rnd) (qs : List QObj) (hs : ∀ q ∈ qs, q.hasKnob = true) :
+    ∀ q ∈ (setAll c rd qs).1, q.kind = .std → q.useSte = c.useSte := by
+  induction qs with
+  | nil => simp [setAll]
+  | cons q t ih =>
+    obtain ⟨q', h1, h2, _, h3, _, _⟩ := setOne_knob c rd q (hs q (by simp))
+    have iht := ih (fun x hx => hs x (by simp [hx]))
+    unfold setAll
+    rw [h1]
+    intro x hx hk
+    simp only [List.mem_cons] at hx
+    rcases hx with rfl | hx
+    · exact h3 (by rw [← h2]; exact hk)
+    · exact iht x hx hk
 
 theorem updateAll_eff (rd : Rnd) (v : ℚ) (qs : List QObj) :
     ∀ q ∈ updateAll rd v qs, q.st.eff rd = rd.r32 v := by
@@ -344,14 +519,12 @@ theorem monoInv_run (c : Cfg) {n : Num} (h : NumOK n) (layers : List Layer) (es 
   | nil => intro s hs; exact hs
   | cons e t ih => intro s hs; exact ih _ (monoInv_step c h layers s e hs)
 
-/-! ## "all tracked quantizers hold the applied factor" invariant (models whose knob-bearing
-       quantizers are all of the standard kind) -/
+/-! ## "all tracked quantizers hold the applied factor" invariant (every model) -/
 
 def SameInv (rd : Rnd) (s : CB) : Prop :=
   match s.quantizers with
   | none => s.trace = [] ∧ s.factor = none
   | some qs =>
-    (∀ q ∈ qs, q.kind = .std) ∧
     (qs = [] → s.trace = [] ∧ s.factor = none) ∧
     (qs ≠ [] → ∃ v, s.trace.getLast? = some v ∧ s.factor = some v ∧ ∀ q ∈ qs, q.st.eff rd = rd.r32 v)
 
@@ -369,18 +542,17 @@ theorem sameInv_updateStep (c : Cfg) (n : Num) (s : CB) (hi : SameInv n.rd s) :
     unfold SameInv at hi ⊢
     rw [hq] at hi
     simp only
-    refine ⟨updateAll_kind _ _ _ _ hi.1, ?_, ?_⟩
+    refine ⟨?_, ?_⟩
     · intro hh; simp [updateAll] at hh
     · intro _
       exact ⟨_, by simp, rfl, updateAll_eff _ _ _⟩
 
-theorem sameInv_step (c : Cfg) (n : Num) (layers : List Layer)
-    (hstd : ∀ q ∈ getQuantizers layers, q.kind = .std) (s : CB) (e : Event)
+theorem sameInv_step (c : Cfg) (n : Num) (layers : List Layer) (s : CB) (e : Event)
     (hi : SameInv n.rd s) : SameInv n.rd (step c n layers s e).1 := by
   cases e with
   | trainBegin =>
     simp only [step]
-    have hs := setAll_std c n.rd _ hstd
+    have hs := setAll_getQuantizers c n.rd layers
     have hl := setAll_length c n.rd (getQuantizers layers)
     have htf : s.trace = [] ∧ s.factor = none ∨ ¬ emptyish s.quantizers = true := by
       unfold SameInv at hi
@@ -388,14 +560,14 @@ theorem sameInv_step (c : Cfg) (n : Num) (layers : List Layer)
       | none => left; simpa [hq] using hi
       | some l =>
         cases l with
-        | nil => left; rw [hq] at hi; exact hi.2.1 rfl
+        | nil => left; rw [hq] at hi; exact hi.1 rfl
         | cons a t => right; simp [emptyish]
     split_ifs with he hk
     · -- nothing completed: the list is empty
       rcases htf with ⟨ht, hf⟩ | hne
       · unfold SameInv
         simp only
-        refine ⟨fun q hq => (hs.2.2 q hq).1, fun _ => ⟨ht, hf⟩, ?_⟩
+        refine ⟨fun _ => ⟨ht, hf⟩, ?_⟩
         intro hne
         exfalso
         apply hne
@@ -406,13 +578,13 @@ theorem sameInv_step (c : Cfg) (n : Num) (layers : List Layer)
     · rcases htf with ⟨ht, _⟩ | hne
       · unfold SameInv
         simp only
-        refine ⟨fun q hq => (hs.2.2 q hq).1, ?_, ?_⟩
+        refine ⟨?_, ?_⟩
         · intro hnil
           exfalso
           apply hk
           exact setAll_nil_of_result_nil _ _ _ hnil
         · intro _
-          exact ⟨0, by simp [ht], rfl, fun q hq => (hs.2.2 q hq).2.2.2⟩
+          exact ⟨0, by simp [ht], rfl, fun q hq => (hs.2.2.2 q hq).2.2⟩
       · exact absurd he hne
     · exact hi
   | epochBegin =>
@@ -434,43 +606,97 @@ theorem sameInv_step (c : Cfg) (n : Num) (layers : List Layer)
     | some qs =>
       rw [hq] at hi
       simp only [Option.map]
-      refine ⟨?_, ?_, ?_⟩
-      · intro q hqm
-        simp only [List.mem_map] at hqm
-        obtain ⟨q0, h0, rfl⟩ := hqm
-        exact hi.1 q0 h0
+      refine ⟨?_, ?_⟩
       · intro hnil
-        apply hi.2.1
+        apply hi.1
         simpa using hnil
       · intro hne
         have : qs ≠ [] := by
           intro hh; apply hne; simp [hh]
-        obtain ⟨v, h1, h2, h3⟩ := hi.2.2 this
+        obtain ⟨v, h1, h2, h3⟩ := hi.2 this
         refine ⟨v, h1, h2, ?_⟩
         intro q hqm
         simp only [List.mem_map] at hqm
         obtain ⟨q0, h0, rfl⟩ := hqm
         simpa using h3 q0 h0
 
-theorem sameInv_run (c : Cfg) (n : Num) (layers : List Layer)
-    (hstd : ∀ q ∈ getQuantizers layers, q.kind = .std) (es : List Event) :
+theorem sameInv_run (c : Cfg) (n : Num) (layers : List Layer) (es : List Event) :
     ∀ s, SameInv n.rd s → SameInv n.rd (run c n layers s es) := by
   induction es with
   | nil => intro s hs; exact hs
-  | cons e t ih => intro s hs; exact ih _ (sameInv_step c n layers hstd s e hs)
+  | cons e t ih => intro s hs; exact ih _ (sameInv_step c n layers s e hs)
 
-/-! ## no hook raises once `on_train_begin` has run (standard-kind models) -/
+/-! ## the tracked list is (by identity) what `get_quantizers` returned -/
 
-theorem step_no_raise (c : Cfg) (n : Num) (layers : List Layer)
-    (hstd : ∀ q ∈ getQuantizers layers, q.kind = .std) (s : CB) (e : Event)
+def TagInv (layers : List Layer) (s : CB) : Prop :=
+  ∀ qs, s.quantizers = some qs → qs.map QObj.tag = (getQuantizers layers).map QObj.tag
+
+theorem tagInv_init (layers : List Layer) : TagInv layers CB.init := by
+  intro qs h; simp [CB.init] at h
+
+theorem tagInv_updateStep (c : Cfg) (n : Num) (layers : List Layer) (s : CB) (hi : TagInv layers s) :
+    TagInv layers (updateStep c n s).1 := by
+  rcases updateStep_cases c n s with e | ⟨e, _⟩ | ⟨q, qs, hq, _, e⟩
+  · rw [e]; exact hi
+  · rw [e]; exact hi
+  · rw [e]
+    intro qs' h
+    simp only [Option.some.injEq] at h
+    rw [← h, updateAll_tags]
+    exact hi _ hq
+
+theorem tagInv_step (c : Cfg) (n : Num) (layers : List Layer) (s : CB) (e : Event)
+    (hi : TagInv layers s) : TagInv layers (step c n layers s e).1 := by
+  cases e with
+  | trainBegin =>
+    simp only [step]
+    have hs := setAll_getQuantizers c n.rd layers
+    split_ifs
+    · intro qs h
+      simp only [Option.some.injEq] at h
+      rw [← h]; exact hs.2.2.1
+    · intro qs h
+      simp only [Option.some.injEq] at h
+      rw [← h]; exact hs.2.2.1
+    · exact hi
+  | epochBegin =>
+    simp only [step]
+    split_ifs
+    · exact hi
+    · exact tagInv_updateStep c n layers s hi
+  | batchBegin =>
+    simp only [step]
+    split_ifs
+    · exact tagInv_updateStep c n layers s hi
+    · exact hi
+  | epochEnd => exact hi
+  | forward =>
+    simp only [step]
+    intro qs h
+    cases hq : s.quantizers with
+    | none => simp [hq] at h
+    | some qs0 =>
+      simp only [hq, Option.map, Option.some.injEq] at h
+      rw [← h, List.map_map]
+      exact hi _ hq
+
+theorem tagInv_run (c : Cfg) (n : Num) (layers : List Layer) (es : List Event) :
+    ∀ s, TagInv layers s → TagInv layers (run c n layers s es) := by
+  induction es with
+  | nil => intro s hs; exact hs
+  | cons e t ih => intro s hs; exact ih _ (tagInv_step c n layers s e hs)
+
+/-! ## no hook raises once `on_train_begin` has run (every model) -/
+
+theorem step_no_raise (c : Cfg) (n : Num) (layers : List Layer) (s : CB) (e : Event)
     (hs : s.quantizers.isSome = true ∨ e = .trainBegin) :
     (step c n layers s e).2 = false ∧ (step c n layers s e).1.quantizers.isSome = true := by
   cases e with
   | trainBegin =>
     simp only [step]
     split_ifs with he hk
-    · exact ⟨(setAll_std c n.rd _ hstd).1, rfl⟩
-    · exact ⟨(setAll_std c n.rd _ hstd).1, rfl⟩
+    · exact ⟨(setAll_getQuantizers c n.rd layers).1, rfl⟩
+    · exact ⟨(setAll_getQuantizers c n.rd layers).1, rfl⟩
     · refine ⟨rfl, ?_⟩
       cases hq : s.quantizers with
       | none => simp [hq, emptyish] at he
@@ -504,16 +730,23 @@ theorem step_no_raise (c : Cfg) (n : Num) (layers : List Layer)
     | none => rw [hq] at hs; cases hs
     | some _ => rfl
 
-theorem run_no_raise (c : Cfg) (n : Num) (layers : List Layer)
-    (hstd : ∀ q ∈ getQuantizers layers, q.kind = .std) (es : List Event) :
+theorem run_no_raise (c : Cfg) (n : Num) (layers : List Layer) (es : List Event) :
     ∀ s, s.quantizers.isSome = true → anyRaise c n layers s es = false := by
   induction es with
   | nil => intro s _; rfl
   | cons e t ih =>
     intro s hs
-    have h := step_no_raise c n layers hstd s e (Or.inl hs)
+    have h := step_no_raise c n layers s e (Or.inl hs)
     simp only [anyRaise, h.1, Bool.false_or]
     exact ih _ h.2
+
+theorem run_isSome (c : Cfg) (n : Num) (layers : List Layer) (es : List Event) :
+    ∀ s, s.quantizers.isSome = true → (run c n layers s es).quantizers.isSome = true := by
+  induction es with
+  | nil => intro s hs; exact hs
+  | cons e t ih =>
+    intro s hs
+    exact ih _ (step_no_raise c n layers s e (Or.inl hs)).2
 
 /-! ## num_iters counts the hooks that reach `update_qnoise_factor` -/
 
